@@ -225,6 +225,108 @@ example :
   have hr : noRepeatSplit r [p, p] = true := by decide
   exact ⟨hs, hp, hr, theta_update_reads_back_partial r [p, p] hs hp hr⟩
 
+/-! ### diagonal `$OMEGA` / `$SIGMA` records -/
+
+/-- one updated item, any child list with an init (options FIX/SD/VAR and parentheses anywhere) -/
+theorem omega_diag_item_reads_back (cs : List TNode) (p : OParam) (h : hasK .init cs = true)
+    (hsv : (hasK .sd cs && hasK .var cs) = false) (hz : p.raw = zero → p.fix = true) :
+    parseDiagItem (updDiagSame cs p) = .ok { raw := p.raw, sd := hasK .sd cs, fix := p.fix } ∧
+      multiple (updDiagSame cs p) = multiple cs := by
+  obtain ⟨h1, h2, h3, h4, h5⟩ := updDiagSame_obs cs p h
+  refine ⟨?_, h5⟩
+  unfold parseDiagItem
+  rw [h1, h2, h3, h4]
+  by_cases hr : p.raw = zero
+  · simp [hsv, hr, hz hr]
+  · simp [hsv, hr]
+
+/-- `omega_diag_update_reads_back_partial`: for every diagonal record (any number of items, any
+    options, `DIAGONAL(n)`, comments) the updated record reads back with the new raw values and
+    fixedness and the old scale flags — when no `(v)xn` item has to be split (`noRepeatSplitD`). -/
+theorem omega_diag_update_reads_back_partial (r : List DNode) (ps : List OParam) (hok : DiagOK r)
+    (hz : ∀ p ∈ ps, p.raw = zero → p.fix = true) (hrep : noRepeatSplitD r ps = true) :
+    parseDiag (updDiag r ps) = .ok (expectD r ps) := by
+  induction r generalizing ps with
+  | nil => rfl
+  | cons x r ih =>
+    have hok' : DiagOK r := fun cs h => hok cs (List.mem_cons_of_mem _ h)
+    cases x with
+    | tok t => simpa [updDiag, parseDiag, expectD] using ih ps hok' hz hrep
+    | diagonal t => simpa [updDiag, parseDiag, expectD] using ih ps hok' hz hrep
+    | item cs =>
+      cases ps with
+      | nil => simp [noRepeatSplitD] at hrep
+      | cons p ps' =>
+        simp only [noRepeatSplitD, Bool.and_eq_true, decide_eq_true_eq, beq_iff_eq] at hrep
+        obtain ⟨⟨hn, htake⟩, hrest⟩ := hrep
+        obtain ⟨hinit, hsv⟩ := hok cs (by simp)
+        obtain ⟨hparse, hmult⟩ := omega_diag_item_reads_back cs p hinit hsv (hz p (by simp))
+        have hih := ih ((p :: ps').drop (multiple cs)) hok'
+          (fun q hq => hz q (List.mem_of_mem_drop hq)) hrest
+        have hall : (multiple cs = 1 || ((p :: ps').take (multiple cs)).all (fun q => q.raw == p.raw && q.fix == p.fix)) = true := by
+          rw [htake]; simp
+        have hhead : ∃ rest, (p :: ps').take (multiple cs) = p :: rest := by
+          cases hm : multiple cs with
+          | zero => omega
+          | succ m => exact ⟨List.take m ps', by simp [List.take]⟩
+        obtain ⟨rest, hrest'⟩ := hhead
+        have hitem : updDiagItem cs ((p :: ps').take (multiple cs)) = [.item (updDiagSame cs p)] := by
+          rw [hrest'] at hall ⊢
+          simp only [updDiagItem]
+          rw [if_pos hall]
+        simp only [updDiag, hitem, List.singleton_append, parseDiag, hparse, hih, hmult, expectD]
+
+/-- `remove` on a diagonal record reads back as the per-item drop -/
+theorem omega_diag_remove_reads_back (r : List DNode) (inds : List Nat) :
+    parseDiagItems (removeDiag r inds) = dropIdx inds 0 (parseDiagItems r) := by
+  unfold removeDiag
+  cases inds with
+  | nil =>
+    simp only [List.isEmpty_nil, ↓reduceIte]
+    have : ∀ (i : Nat) (xs : List (Except DErr DParsed × Nat)), dropIdx [] i xs = xs := by
+      intro i xs
+      induction xs generalizing i with
+      | nil => rfl
+      | cons x xs ih => simp [dropIdx, ih]
+    rw [this]
+  | cons a as => simpa using removeDiagAux_parse (a :: as) 0 true r
+
+/-- the split-xn path inverts the FIX logic: `$OMEGA (0.1 FIX)x2` with the second variance changed and
+    both still fixed is written `(0.1) (0.25)` — both unfixed -/
+theorem omega_diag_split_fix_witness :
+    let cs := [tokLpar, nNum .init "0.1" 1 10, tokWs, tokFix, tokRpar, nRep 2]
+    let ps := [oP 1 10 "0.1" true, oP 1 4 "0.25" true]
+    noRepeatSplitD [.item cs] ps = false ∧
+    updDiag [.item cs] ps =
+      [.item [tokLpar, nNum .init "0.1" 1 10, tokRpar], .tok wsTree, .item [tokLpar, nNum .init "0.25" 1 4, tokRpar]] ∧
+    parseDiag (updDiag [.item cs] ps) = .ok [{ raw := .fin 1 10, sd := false, fix := false },
+                                             { raw := .fin 1 4, sd := false, fix := false }] := by
+  decide
+
+/-- removing the last value of `$OMEGA 0.1 0.2⏎` also removes the newline that ends the record -/
+theorem omega_diag_remove_last_newline_witness :
+    let r := [DNode.tok tokWs, .item [nNum .init "0.1" 1 10], .tok tokWs, .item [nNum .init "0.2" 1 5], .tok nNewline]
+    removeDiag r [1] = [DNode.tok tokWs, .item [nNum .init "0.1" 1 10], .tok tokWs] := by
+  decide
+
+/-- non-vacuity: `$OMEGA DIAG(3) (0.1 SD)x2 0.3 FIX` with new values for all three etas -/
+example :
+    let r := [DNode.diagonal tokWs, .item [tokLpar, nNum .init "0.1" 1 10, tokWs, nSd, tokRpar, nRep 2], .tok tokWs,
+              .item [nNum .init "0.3" 3 10, tokWs, tokFix], .tok nNewline]
+    let ps := [oP 1 2 "0.5" true, oP 1 2 "0.5" true, oP 2 1 "2" false]
+    DiagOK r ∧ noRepeatSplitD r ps = true ∧
+      parseDiag (updDiag r ps) = .ok [{ raw := .fin 1 2, sd := true, fix := true }, { raw := .fin 1 2, sd := true, fix := true },
+                                      { raw := .fin 2 1, sd := false, fix := false }] := by
+  intro r ps
+  have hok : DiagOK r := by
+    intro cs h
+    simp [r] at h
+    rcases h with rfl | rfl <;> decide
+  have hrep : noRepeatSplitD r ps = true := by decide
+  refine ⟨hok, hrep, ?_⟩
+  rw [omega_diag_update_reads_back_partial r ps hok (by intro p hp; simp [ps] at hp; rcases hp with rfl | rfl <;> decide) hrep]
+  decide
+
 /-! ### `$OMEGA` / `$SIGMA BLOCK(n)`: scale conversions (every block size, entry by entry) -/
 
 section omega
